@@ -13,6 +13,7 @@ fn main() {
         "nq" => sv::nq::main(&args[2..]),
         "c14n" => sv::c14n::main(&args[2..]),
         "sparql" => sv::sparql::main(&args[2..]),
+        "rt" => sv::rt::main(&args[2..]),
         _ => {
             eprintln!("unknown family {fam}");
             std::process::exit(2);
